@@ -43,7 +43,8 @@ def okGE : Expr → Bool
     name != "throw" && name != "println" && okGArgs args && oneNonAtom args
   | .matchE _ _ c arms (some d) => okGE c && okGArms arms && okGE d
   | .list _ _ xs => xs.all atomE
-  | .obj _ _ fs => fs.all (fun f => atomE f.2) && decide ((fs.map (·.1)).Nodup)
+  | .obj _ _ fs => fs.all (fun f => atomE f.2) && decide ((fs.map (·.1)).Nodup) &&
+      fs.all (fun f => f.1 != "len" && f.1 != "push")
   | _ => false
 /-- The arms of a `match`: literal patterns, bodies in the fragment. -/
 def okGArms : List (List Expr × Expr) → Bool
@@ -320,6 +321,96 @@ theorem cgE_of_pure (mod : String) (ρ φ : String → Option String) (e : Expr)
     (h : Frag.pureE e = true) : cgE mod ρ φ e lm = cpE mod ρ e lm :=
   (cgE_pure mod ρ φ (Frag.depthE e)).1 e lm (Nat.le_refl _) h
 
+/-! ## The right-hand side of `let`: a value-position expression, or the method call `l.len()` -/
+
+namespace Frag
+/-- `l.len()` with `l` in `okXE`. -/
+def lenCallOK : Expr → Bool
+  | .call _ _ (.member _ _ b nm .dot) [] false => nm == "len" && okXE b
+  | _ => false
+def depthL : Expr → Nat
+  | .call _ _ (.member _ _ b _ .dot) [] false => depthGE b + 3
+  | e => depthGE e
+def varsL : Expr → List String
+  | .call _ _ (.member _ _ b _ .dot) [] false => varsGE b
+  | e => varsGE e
+def callsL : Expr → List String
+  | .call _ _ (.member _ _ b _ .dot) [] false => callsGE b
+  | e => callsGE e
+def namesL (e : Expr) : List String := varsL e ++ callsL e
+end Frag
+
+/-- The code of the right-hand side of a `let`: `code(l); Member len; Copy_Push 0; Call_Val` for `l.len()`. -/
+def cgL (mod : String) (ρ φ : String → Option String) : Expr → LM → SCode × LM
+  | .call csp _ (.member msp _ b nm .dot) [] false, lm =>
+    ((cgE mod ρ φ b lm).1 ++ [(.member nm, msp), (.copyPush (.int 0), csp), (.callVal, csp)], (cgE mod ρ φ b lm).2)
+  | e, lm => cgE mod ρ φ e lm
+
+theorem lenCallOK_of_okXE {e : Expr} (h : Frag.okXE e = true) : Frag.lenCallOK e = false := by
+  cases e <;> try rfl
+  rename_i csp cty base args sw
+  cases base <;> try rfl
+  rename_i msp mty b nm mop
+  cases mop <;> try rfl
+  cases args <;> try rfl
+  cases sw <;> try rfl
+  simp [Frag.okXE, Frag.okGE] at h
+
+theorem cgL_of_okXE (mod : String) (ρ φ : String → Option String) {e : Expr} (h : Frag.okXE e = true) (lm : LM) :
+    cgL mod ρ φ e lm = cgE mod ρ φ e lm := by
+  cases e <;> try rfl
+  rename_i csp cty base args sw
+  cases base <;> try rfl
+  rename_i msp mty b nm mop
+  cases mop <;> try rfl
+  cases args <;> try rfl
+  cases sw <;> try rfl
+  simp [Frag.okXE, Frag.okGE] at h
+
+theorem depthL_of_okXE {e : Expr} (h : Frag.okXE e = true) : Frag.depthL e = Frag.depthGE e := by
+  cases e <;> try rfl
+  rename_i csp cty base args sw
+  cases base <;> try rfl
+  rename_i msp mty b nm mop
+  cases mop <;> try rfl
+  cases args <;> try rfl
+  cases sw <;> try rfl
+  simp [Frag.okXE, Frag.okGE] at h
+
+theorem varsL_of_okXE {e : Expr} (h : Frag.okXE e = true) : Frag.varsL e = Frag.varsGE e := by
+  cases e <;> try rfl
+  rename_i csp cty base args sw
+  cases base <;> try rfl
+  rename_i msp mty b nm mop
+  cases mop <;> try rfl
+  cases args <;> try rfl
+  cases sw <;> try rfl
+  simp [Frag.okXE, Frag.okGE] at h
+
+theorem callsL_of_okXE {e : Expr} (h : Frag.okXE e = true) : Frag.callsL e = Frag.callsGE e := by
+  cases e <;> try rfl
+  rename_i csp cty base args sw
+  cases base <;> try rfl
+  rename_i msp mty b nm mop
+  cases mop <;> try rfl
+  cases args <;> try rfl
+  cases sw <;> try rfl
+  simp [Frag.okXE, Frag.okGE] at h
+
+/-- The shape of an accepted `l.len()`. -/
+theorem lenCallOK_inv {e : Expr} (h : Frag.lenCallOK e = true) :
+    ∃ csp cty msp mty b, e = .call csp cty (.member msp mty b "len" .dot) [] false ∧ Frag.okXE b = true := by
+  cases e <;> try (simp [Frag.lenCallOK] at h; done)
+  rename_i csp cty base args sw
+  cases base <;> try (simp [Frag.lenCallOK] at h; done)
+  rename_i msp mty b nm mop
+  cases mop <;> try (simp [Frag.lenCallOK] at h; done)
+  cases args <;> try (simp [Frag.lenCallOK] at h; done)
+  cases sw <;> try (simp [Frag.lenCallOK] at h; done)
+  simp only [Frag.lenCallOK, Bool.and_eq_true, beq_iff_eq] at h
+  obtain ⟨rfl, hb⟩ := h
+  exact ⟨csp, cty, msp, mty, b, rfl, hb⟩
+
 /-- Compound assignment to a heap slot: the current value is duplicated first … -/
 def opPre (op : Option InfixOp) (sp : Span) : SCode :=
   match op with
@@ -344,7 +435,7 @@ labels of the enclosing loops, innermost first. -/
 def cgS (mod fn : String) (φ : String → Option String) :
     List (String × String) → Stmt → CEnv → SCode × CEnv
   | _, .letS sp name _ false _ e, env =>
-    let ce := cgE mod (ρS env.scopes) φ e env.lm
+    let ce := cgL mod (ρS env.scopes) φ e env.lm
     let fv := freshVar mod { env with lm := ce.2 } name
     (ce.1 ++ [(.setVar fv.1, sp)], { fv.2 with nv := fv.2.nv + 1 })
   | _, .exprS _ (.assign asp none (.ident _ _ name false _ false) r), env =>
@@ -362,6 +453,11 @@ def cgS (mod fn : String) (φ : String → Option String) :
     let cl := cgE mod (ρS env.scopes) φ (.member msp mty b name .dot) env.lm
     let cr := cgE mod (ρS env.scopes) φ r cl.2
     (cl.1 ++ opPre op asp ++ cr.1 ++ opPost op asp ++ [(.assign, asp)], { env with lm := cr.2 })
+  | _, .exprS _ (.call csp _ (.member msp _ b nm .dot) [a] false), env =>
+    -- `l.push(x)`: the argument first, then the receiver and its bound method
+    let ca := cgE mod (ρS env.scopes) φ a.2 env.lm
+    let cb := cgE mod (ρS env.scopes) φ b ca.2
+    (ca.1 ++ cb.1 ++ [(.member nm, msp), (.copyPush (.int 1), csp), (.callVal, csp)], { env with lm := cb.2 })
   | loops, .exprS _ (.ifE isp _ c t (some eb)), env =>
     let cc := cgE mod (ρS env.scopes) φ c env.lm
     let after := freshLabel mod cc.2 "if_after"
@@ -524,7 +620,7 @@ mutual
 /-- The statement fragment; `fr`: `for` loops are allowed; `il`: inside a loop (`break`/`continue` are
 allowed); `rt`: `return` is allowed. -/
 def okFS : Bool → Bool → Bool → Stmt → Bool
-  | _, _, _, .letS _ _ _ needsCast _ e => !needsCast && okXE e
+  | fr, _, _, .letS _ _ _ needsCast _ e => !needsCast && (okXE e || (fr && lenCallOK e))
   | _, _, _, .exprS _ (.assign _ none (.ident _ _ _ false _ false) r) => okXE r
   | _, _, _, .exprS _ (.assign _ (some op) (.ident _ _ _ false _ false) r) => !isLogical op && okXE r
   | _, _, _, .exprS _ (.assign _ op (.index isp ity b i) r) =>
@@ -536,6 +632,8 @@ def okFS : Bool → Bool → Bool → Stmt → Bool
   | fr, il, rt, .exprS _ (.tryE _ ty t _ c) => ty.isNull && okFBS fr false false t && okFBS fr il rt c
   | fr, il, rt, .exprS _ (.matchE _ ty c arms (some (.blockE db))) =>
     ty.isNull && okGE c && okFArmsS fr il rt arms && okFBS fr il rt db
+  | fr, _, _, .exprS _ (.call _ cty (.member _ _ b nm .dot) [a] false) =>
+    fr && nm == "push" && cty.isNull && okXE b && atomE a.2
   | _, _, _, .exprS _ (.call csp cty (.ident isp ity name g f si) args sw) =>
     if name == "throw" then
       !sw && decide (args.length = 1) && args.all (fun a => atomE a.2)
@@ -571,12 +669,13 @@ abbrev okGArmsS (il rt : Bool) (arms : List (List Expr × Expr)) : Bool := okFAr
 
 mutual
 def depthGS : Stmt → Nat
-  | .letS _ _ _ _ _ e => depthGE e + 2
+  | .letS _ _ _ _ _ e => depthL e + 2
   | .exprS _ (.assign _ _ (.index _ _ b i) r) => max (depthGE b) (max (depthGE i) (depthGE r)) + 3
   | .exprS _ (.assign _ _ (.member _ _ b _ _) r) => max (depthGE b) (depthGE r) + 3
   | .exprS _ (.assign _ _ _ r) => depthGE r + 2
   | .exprS _ (.ifE _ _ c t (some eb)) => max (depthGE c) (max (depthGBS t) (depthGBS eb)) + 2
   | .exprS _ (.ifE _ _ c t none) => max (depthGE c) (depthGBS t) + 2
+  | .exprS _ (.call _ _ (.member _ _ b _ _) args _) => max (depthGE b) (depthGArgs args) + 3
   | .exprS _ (.call _ _ _ args _) => depthGArgs args + 2
   | .exprS _ (.tryE _ _ t _ c) => max (depthGBS t) (depthGBS c) + 2
   | .exprS _ (.matchE _ _ c arms (some (.blockE db))) => max (depthGE c) (max (depthGArmsS arms) (depthGBS db)) + 2
@@ -610,7 +709,7 @@ def wsGArgs (scopes : List (List (String × String))) (φ : String → Option St
 
 mutual
 def wsGS (mod fn : String) (φ : String → Option String) : List (String × String) → Stmt → CEnv → Bool
-  | _, .letS _ _ _ _ _ e, env => wsGE env.scopes φ e
+  | _, .letS _ _ _ _ _ e, env => resolved env.scopes (varsL e) && callsOK env.scopes φ (callsL e)
   | _, .exprS _ (.assign _ _ (.ident _ _ name _ _ _) r), env =>
     (ρS env.scopes name).isSome && wsGE env.scopes φ r
   | _, .exprS _ (.assign _ _ (.index isp ity b i) r), env =>
@@ -645,6 +744,8 @@ def wsGS (mod fn : String) (φ : String → Option String) : List (String × Str
         (armTests mod sp arms (freshLabel mod (cgE mod (ρS env.scopes) φ c env.lm).2 "match_after").2).2.1
         { env with lm := (freshLabel mod (armTests mod sp arms (freshLabel mod
           (cgE mod (ρS env.scopes) φ c env.lm).2 "match_after").2).2.2 "match_default").2 }).2
+  | _, .exprS _ (.call _ _ (.member _ _ b _ _) args _), env =>
+    wsGE env.scopes φ b && wsGArgs env.scopes φ args
   | _, .exprS _ (.call _ _ (.ident _ _ name _ _ _) args _), env =>
     if name == "throw" then
       (ρS env.scopes name).isNone && (φ name).isNone && wsGArgs env.scopes φ args
@@ -693,13 +794,14 @@ def namesGArgs (args : List (String × Expr)) : List String := varsGArgs args ++
 mutual
 /-- The identifiers a statement declares, reads, assigns or calls. -/
 def identsGS : Stmt → List String
-  | .letS _ name _ _ _ e => name :: namesGE e
+  | .letS _ name _ _ _ e => name :: namesL e
   | .exprS _ (.assign _ _ (.ident _ _ name _ _ _) r) => name :: namesGE r
   | .exprS _ (.assign _ _ (.index isp ity b i) r) => namesGE (.index isp ity b i) ++ namesGE r
   | .exprS _ (.assign _ _ (.member msp mty b name mop) r) => namesGE (.member msp mty b name mop) ++ namesGE r
   | .exprS _ (.ifE _ _ c t (some eb)) => namesGE c ++ (identsGBS t ++ identsGBS eb)
   | .exprS _ (.ifE _ _ c t none) => namesGE c ++ identsGBS t
   | .exprS _ (.call _ _ (.ident _ _ name _ _ _) args _) => name :: namesGArgs args
+  | .exprS _ (.call _ _ (.member _ _ b _ _) args _) => namesGE b ++ namesGArgs args
   | .exprS _ (.tryE _ _ t catchIdent c) => identsGBS t ++ (catchIdent :: identsGBS c)
   | .exprS _ (.matchE _ _ c arms (some (.blockE db))) => namesGE c ++ (identsGArmsS arms ++ identsGBS db)
   | .whileS _ c body => namesGE c ++ identsGBS body
